@@ -4,36 +4,36 @@ C19  Tables fit the terminal and show all the data.
 Model: AgModel/Pretty.lean (`PrettyPrinter` with checked subtraction, byte lengths vs character
 counts as in the code, width memory as explicit state), AgModel/Render.lean (`Value::render`).
 
-Hypotheses that recur (all decidable):
-* `BufOK cfg`     `2 ≤ min_buffer ≤ max_buffer`        — `Pipeline::new` uses 4 and 8.
+The model follows the repaired printer (fix commits 9f65de4 ellipsis underflow, 3a98c5e header cells
+cut like body cells, 0faaa16 separator counts characters, 439c1ac `trim_end()` instead of `trim()`); the
+counterexample theorems of the unrepaired code are gone and the former `_partial` theorems are full.
+
+Hypotheses that remain (decidable, about the table's shape, not its size):
 * `Covered t`     every column occurs as a key of some row — true of every operator's output;
                   the printer indexes `column_widths[column]`, which only rows fill.
 * `t.columns.Nodup`                                   — false for `count(a), count(b)` (C01's finding).
 
-Results
-* `C19_empty`                 an empty table prints `No data\n`.
-* `C19_no_panic`              no panic when the natural widths fit, or when the terminal has at least
-                              2 cells per remembered column (`2 * #widths ≤ width`); `C19_no_panic_fresh`:
-                              for a fresh printer `2 * #columns ≤ width` suffices.
-* `C19_no_panic_full` / `C19_no_panic_counterexample`   without that bound the statement is false:
-                              3 columns on a 2-cell terminal underflow `limit - 2` in `format_with_ellipsis`.
-* `C19_cell`                  a cell that fits its column is shown in full (padded), otherwise cut to
-                              `width − 2` characters + `… `; `C19_cell_length`: always exactly `width` characters.
-* `C19_offsets`               in a row, the cell of column j starts at the sum of the widths before it.
-* `C19_trim_full` / `C19_trim_counterexample` / `C19_trim_partial`   the printed line is the row up to
-                              trailing blanks — false when the first cell starts with a blank (`trim()` also
-                              strips the left side and shifts every cell); true otherwise.
-* `C19_body_width`            every body line has at most `width` characters (all tables, all sizes).
-* `C19_header`                the header is the column names in column order, each padded to its width
-                              (never cut); `C19_header_width_full` / `_counterexample` / `_partial`: the header
-                              line fits the terminal only if every name fits its column; the separator has
-                              `header.len()` BYTES: `C19_separator_*`.
-* `C19_clip`                  on a terminal at most `height − 1` lines (1 line for height 1).
-* `C19_lines`                 when no text contains `\n`/`\r`, the output is exactly header, separator
-                              and body lines, clipped.
-* `C19_record_fields`         every field of a record gets a column and is shown as `[k=v]`;
-                              `C19_record_order_stable`: the column order only grows, unless the layout
-                              overflowed the terminal and was reset.
+Results (all for every terminal size ≥ 1×1, the no-terminal case, every buffer configuration and every
+state earlier frames left in the printer)
+* `C19_empty`        an empty table prints `No data\n`.
+* `C19_no_panic`     `format_aggregate` never panics.
+* `C19_cell`         a text that fits its column is shown in full (padded); otherwise it is cut to
+                     `width − 2` characters + `… ` (to `width` characters when the column is narrower than
+                     2); `C19_cell_length`: a cell is always exactly `width` characters.
+* `C19_offsets`      in a row, the cell of column j starts at the sum of the widths before it;
+  `C19_trim`         the printed line is that row minus trailing blanks.
+* `C19_header`       the header is the column names in column order, each formatted like a cell of its
+                     column, minus trailing blanks — names sit at their columns' offsets.
+* `C19_separator`    the separator is as many dashes as the table is wide.
+* `C19_width`        no line — header, separator, body — has more characters than the terminal is wide
+                     (240 without a terminal); `C19_body_width`, `C19_header_width`, `C19_separator_width`.
+* `C19_clip`         on a terminal at most `height − 1` lines (1 line for height 1).
+* `C19_lines`        when no text contains `\n`/`\r`, the output is exactly header, separator and body
+                     lines, clipped.
+* `C19_record_fields`, `C19_record_cells`   every field of a record gets a column and is shown as `[k=v]`;
+  `C19_record_order_stable`  the column order only grows, unless the layout overflowed the terminal and
+                     was reset.
+Not carried: display width of East-Asian wide characters (one character = one cell here).
 -/
 import AgModel.Pretty
 
@@ -42,10 +42,6 @@ namespace C19
 open Ag.Pretty
 
 /-! ### vocabulary -/
-
-def BufOK (cfg : Cfg) : Prop := 2 ≤ cfg.minBuf ∧ cfg.minBuf ≤ cfg.maxBuf
-
-instance (cfg : Cfg) : Decidable (BufOK cfg) := inferInstanceAs (Decidable (_ ∧ _))
 
 /-- every column is a key of some row -/
 def Covered (t : Table) : Prop := ∀ c ∈ t.columns, ∃ row ∈ t.rows, c ∈ Fields.keys row
@@ -91,15 +87,17 @@ theorem fmtEllipsis_cut (inp : Str) (n : Nat) (h : n < inp.length) (h2 : 2 ≤ n
     fmtEllipsis inp n = .ok (inp.take (n - 2) ++ ['…', ' ']) := by
   simp [fmtEllipsis, h, Nat.not_lt.mpr h2]
 
-theorem fmtEllipsis_panic (inp : Str) (n : Nat) (h : n < inp.length) (h2 : n < 2) :
-    ∃ site, fmtEllipsis inp n = .panic site := by
+theorem fmtEllipsis_narrow (inp : Str) (n : Nat) (h : n < inp.length) (h2 : n < 2) :
+    fmtEllipsis inp n = .ok (inp.take n) := by
   simp [fmtEllipsis, h, h2]
 
 /-- **C19_cell** (`C19_full_if_fits`): a text that fits is shown in full and padded with blanks;
-a longer one is cut to `n − 2` characters followed by `… `. -/
+a longer one is cut to `n − 2` characters followed by `… ` — or, in a column narrower than 2, to its
+first `n` characters. -/
 theorem C19_cell (inp : Str) (n : Nat) (cell : Str) (h : fmtEllipsis inp n = .ok cell) :
     (inp.length ≤ n ∧ cell = inp ++ List.replicate (n - inp.length) ' ') ∨
-    (n < inp.length ∧ 2 ≤ n ∧ cell = inp.take (n - 2) ++ ['…', ' ']) := by
+    (n < inp.length ∧ 2 ≤ n ∧ cell = inp.take (n - 2) ++ ['…', ' ']) ∨
+    (n < inp.length ∧ n < 2 ∧ cell = inp.take n) := by
   by_cases hfit : inp.length ≤ n
   · left
     rw [fmtEllipsis_fits inp n hfit] at h
@@ -108,24 +106,30 @@ theorem C19_cell (inp : Str) (n : Nat) (cell : Str) (h : fmtEllipsis inp n = .ok
   · right
     have hlt : n < inp.length := Nat.lt_of_not_le hfit
     by_cases h2 : 2 ≤ n
-    · rw [fmtEllipsis_cut inp n hlt h2] at h
+    · left
+      rw [fmtEllipsis_cut inp n hlt h2] at h
       cases h
       exact ⟨hlt, h2, rfl⟩
-    · obtain ⟨site, hs⟩ := fmtEllipsis_panic inp n hlt (Nat.lt_of_not_le h2)
-      rw [hs] at h
+    · right
+      rw [fmtEllipsis_narrow inp n hlt (Nat.lt_of_not_le h2)] at h
       cases h
+      exact ⟨hlt, Nat.lt_of_not_le h2, rfl⟩
 
 /-- a printed cell is exactly as wide as its column -/
 theorem C19_cell_length (inp : Str) (n : Nat) (cell : Str) (h : fmtEllipsis inp n = .ok cell) :
     cell.length = n := by
-  rcases C19_cell inp n cell h with ⟨hfit, rfl⟩ | ⟨hlt, h2, rfl⟩
+  rcases C19_cell inp n cell h with ⟨hfit, rfl⟩ | ⟨hlt, h2, rfl⟩ | ⟨hlt, h2, rfl⟩
+  · simp; omega
   · simp; omega
   · simp; omega
 
-theorem fmtEllipsis_ok (inp : Str) (n : Nat) (h : 2 ≤ n) : ∃ cell, fmtEllipsis inp n = .ok cell := by
+/-- formatting a cell never fails -/
+theorem fmtEllipsis_ok (inp : Str) (n : Nat) : ∃ cell, fmtEllipsis inp n = .ok cell := by
   by_cases hfit : inp.length ≤ n
   · exact ⟨_, fmtEllipsis_fits inp n hfit⟩
-  · exact ⟨_, fmtEllipsis_cut inp n (Nat.lt_of_not_le hfit) h⟩
+  · by_cases h2 : 2 ≤ n
+    · exact ⟨_, fmtEllipsis_cut inp n (Nat.lt_of_not_le hfit) h2⟩
+    · exact ⟨_, fmtEllipsis_narrow inp n (Nat.lt_of_not_le hfit) (Nat.lt_of_not_le h2)⟩
 
 /-! ### rows of cells, offsets -/
 
@@ -233,42 +237,18 @@ theorem trimEnd_prefix (s : Str) : ∃ t, s = Text.trimEnd s ++ t ∧ ∀ c ∈ 
     have hall := List.all_takeWhile (p := Text.isWhite) (l := s.reverse)
     exact List.all_eq_true.mp hall c hc
 
-theorem trim_eq_trimEnd (c : Char) (rest : Str) (h : Text.isWhite c = false) :
-    Text.trim (c :: rest) = Text.trimEnd (c :: rest) := by
-  simp [Text.trim, Text.trimStart, List.dropWhile, h]
-
-/-- the full offset statement for the PRINTED line: it is the assembled row up to trailing blanks -/
-def C19_trim_full : Prop :=
-  ∀ (w : WMap) (row : Fields) (cols : List String) (cells : List Str),
-    rowCells w row cols = .ok cells →
-    ∃ t, concat cells = Text.trim (concat cells) ++ t ∧ ∀ c ∈ t, Text.isWhite c = true
-
-/-- an empty first cell: `trim()` eats the column's padding and every later cell moves left -/
-theorem C19_trim_counterexample : ¬ C19_trim_full := by
-  intro h
-  obtain ⟨t, ht, _⟩ := h [("k", 3), ("n", 3)] [("k", .str ""), ("n", .int 7)] ["k", "n"]
-    [[' ', ' ', ' '], ['7', ' ', ' ']] (eq_ok_of_toOption (by decide))
-  have h1 : concat [[' ', ' ', ' '], ['7', ' ', ' ']] = [' ', ' ', ' ', '7', ' ', ' '] := by decide
-  have h2 : Text.trim [' ', ' ', ' ', '7', ' ', ' '] = ['7'] := by decide
-  rw [h1, h2] at ht
-  simp at ht
-
-/-- **C19_trim_partial**: when the row does not start with a blank, the printed line is the
-assembled row minus trailing blanks, so `C19_offsets` describes the printed line too. -/
-theorem C19_trim_partial (w : WMap) (row : Fields) (cols : List String) (cells : List Str) (line : Str)
-    (hl : rowLine w cols row = .ok line) (hc : rowCells w row cols = .ok cells)
-    (hfirst : ∃ c rest, concat cells = c :: rest ∧ Text.isWhite c = false) :
+/-- **C19_trim.**  The printed line of a row is the assembled row (`C19_offsets`) minus trailing
+blanks: every cell keeps its column's offset on the printed line. -/
+theorem C19_trim (w : WMap) (row : Fields) (cols : List String) (cells : List Str) (line : Str)
+    (hl : rowLine w cols row = .ok line) (hc : rowCells w row cols = .ok cells) :
     ∃ t, concat cells = line ++ t ∧ ∀ c ∈ t, Text.isWhite c = true := by
   simp only [rowLine, hc, Outcome.ok.injEq] at hl
   subst hl
-  obtain ⟨c, rest, hcr, hw⟩ := hfirst
-  rw [hcr, trim_eq_trimEnd c rest hw]
   exact trimEnd_prefix _
 
-/-- non-vacuity of `C19_trim_partial` -/
-example : rowLine [("k", 3), ("n", 3)] ["k", "n"] [("k", .str "a"), ("n", .int 7)] = .ok ['a', ' ', ' ', '7'] ∧
-    (∃ c rest, concat [['a', ' ', ' '], ['7', ' ', ' ']] = c :: rest ∧ Text.isWhite c = false) := by
-  refine ⟨eq_ok_of_toOption (by decide), 'a', _, rfl, by decide⟩
+/-- the former counterexample: an empty first cell no longer moves the row -/
+example : (rowLine [("k", 3), ("n", 3)] ["k", "n"] [("k", .str ""), ("n", .int 7)]).toOption =
+    some [' ', ' ', ' ', '7'] := by decide
 
 /-! ### sums of widths -/
 
@@ -336,7 +316,7 @@ theorem AllPairs.mem_right {α β : Type} {R : α → β → Prop} {as : List α
 
 theorem bodyLines_spec (w : WMap) (cols : List String) : ∀ (rows : List Fields) (body : List Str),
     bodyLines w cols rows = .ok body →
-    AllPairs (fun row l => ∃ cells, rowCells w row cols = .ok cells ∧ l = Text.trim (concat cells)) rows body := by
+    AllPairs (fun row l => ∃ cells, rowCells w row cols = .ok cells ∧ l = Text.trimEnd (concat cells)) rows body := by
   intro rows
   induction rows with
   | nil => intro body h; simp [bodyLines] at h; subst h; exact .nil
@@ -362,7 +342,7 @@ theorem bodyLines_spec (w : WMap) (cols : List String) : ∀ (rows : List Fields
 
 theorem headerCells_spec (w : WMap) : ∀ (cols : List String) (hs : List Str),
     headerCells w cols = .ok hs →
-    AllPairs (fun c h => ∃ n, w.get c = some n ∧ h = padTo n c.toList) cols hs := by
+    AllPairs (fun c h => ∃ n, w.get c = some n ∧ fmtEllipsis c.toList n = .ok h) cols hs := by
   intro cols
   induction cols with
   | nil => intro hs h; simp [headerCells] at h; subst h; exact .nil
@@ -374,22 +354,29 @@ theorem headerCells_spec (w : WMap) : ∀ (cols : List String) (hs : List Str),
     | some n =>
       rw [hg] at h
       simp only [] at h
-      cases hr : headerCells w cs with
-      | ok rest =>
-        rw [hr] at h
-        simp only [Outcome.ok.injEq] at h
-        subst h
-        exact .cons ⟨n, hg, rfl⟩ (ih rest hr)
-      | err k => rw [hr] at h; simp at h
-      | panic p => rw [hr] at h; simp at h
-      | unmodelled u => rw [hr] at h; simp at h
+      cases hf : fmtEllipsis c.toList n with
+      | ok cell =>
+        rw [hf] at h
+        simp only [] at h
+        cases hr : headerCells w cs with
+        | ok rest =>
+          rw [hr] at h
+          simp only [Outcome.ok.injEq] at h
+          subst h
+          exact .cons ⟨n, hg, hf⟩ (ih rest hr)
+        | err k => rw [hr] at h; simp at h
+        | panic p => rw [hr] at h; simp at h
+        | unmodelled u => rw [hr] at h; simp at h
+      | err k => rw [hf] at h; simp at h
+      | panic p => rw [hf] at h; simp at h
+      | unmodelled u => rw [hf] at h; simp at h
 
 /-- what a successful `tableParts` consists of -/
 theorem tableParts_inv (env : Env) (widths : WMap) (t : Table) (w2 : WMap) (parts : Parts)
     (h : tableParts env widths t = .ok (w2, parts)) :
     resize env (absorbRows env.cfg widths t.rows) t.columns = .ok w2 ∧ fits env w2 = true ∧
-    ∃ hs, headerCells w2 t.columns = .ok hs ∧ parts.header = Text.trim (concat hs) ∧
-      parts.sep = List.replicate (byteLen (concat hs)) '-' ∧
+    ∃ hs, headerCells w2 t.columns = .ok hs ∧ parts.header = Text.trimEnd (concat hs) ∧
+      parts.sep = List.replicate (concat hs).length '-' ∧
       bodyLines w2 t.columns t.rows = .ok parts.body := by
   simp only [tableParts] at h
   cases hr : resize env (absorbRows env.cfg widths t.rows) t.columns with
@@ -427,7 +414,7 @@ theorem C19_body_width (env : Env) (widths : WMap) (t : Table) (w2 : WMap) (part
   obtain ⟨_, hfits, _, _, _, _, hb⟩ := tableParts_inv env widths t w2 parts h
   intro l hl
   obtain ⟨row, _, cells, hc, rfl⟩ := (bodyLines_spec w2 t.columns t.rows parts.body hb).mem_right l hl
-  have h1 := trim_length_le (concat cells)
+  have h1 := trimEnd_length_le (concat cells)
   have h2 := rowCells_length w2 row t.columns cells hc
   have h3 := widthSum_le_total w2 t.columns hnd
   have h4 : w2.total ≤ env.maxWidth := by simpa [fits] using hfits
@@ -435,39 +422,55 @@ theorem C19_body_width (env : Env) (widths : WMap) (t : Table) (w2 : WMap) (part
 
 /-! ### header and separator -/
 
-/-- **C19_header.**  The header line is the column names in column order, each padded with blanks
-to its column's width (and never cut), then `trim()`med. -/
+/-- **C19_header.**  The header line is the column names in column order, each formatted like a
+cell of its column (`C19_cell`: padded to the column's width, or cut with an ellipsis when longer),
+minus trailing blanks. -/
 theorem C19_header (env : Env) (widths : WMap) (t : Table) (w2 : WMap) (parts : Parts)
     (h : tableParts env widths t = .ok (w2, parts)) :
-    ∃ hs, AllPairs (fun c cell => ∃ n, w2.get c = some n ∧ cell = c.toList ++ List.replicate (n - c.toList.length) ' ')
-        t.columns hs ∧ parts.header = Text.trim (concat hs) := by
+    ∃ hs, AllPairs (fun c cell => ∃ n, w2.get c = some n ∧ fmtEllipsis c.toList n = .ok cell) t.columns hs ∧
+      parts.header = Text.trimEnd (concat hs) := by
   obtain ⟨_, _, hs, hh, hhead, _, _⟩ := tableParts_inv env widths t w2 parts h
   exact ⟨hs, headerCells_spec w2 t.columns hs hh, hhead⟩
 
-/-- when every name fits its column the header cells are exactly as wide as the body cells, so
-names sit at their columns' offsets -/
-theorem header_length_fits (w : WMap) : ∀ (cols : List String) (hs : List Str),
-    AllPairs (fun c h => ∃ n, w.get c = some n ∧ h = padTo n c.toList) cols hs →
-    (∀ c ∈ cols, ∀ n, w.get c = some n → c.toList.length ≤ n) →
+/-- header cells are exactly as wide as the body cells of their columns: names sit at their
+columns' offsets and the header is as wide as the table -/
+theorem header_length (w : WMap) : ∀ (cols : List String) (hs : List Str),
+    AllPairs (fun c h => ∃ n, w.get c = some n ∧ fmtEllipsis c.toList n = .ok h) cols hs →
     (concat hs).length = widthSum w cols := by
   intro cols hs h
   induction h with
-  | nil => intro _; rfl
-  | @cons c cell cs rest hc _ ih =>
-    intro hfit
-    obtain ⟨n, hn, rfl⟩ := hc
-    have := hfit c (by simp) n hn
-    simp only [concat, List.length_append, widthSum, hn, Option.getD_some, padTo, List.length_replicate]
-    rw [ih (fun d hd m hm => hfit d (by simp [hd]) m hm)]
-    omega
+  | nil => rfl
+  | cons hc _ ih =>
+    obtain ⟨n, hn, hf⟩ := hc
+    simp [concat, widthSum, hn, C19_cell_length _ _ _ hf, ih]
 
-/-- the full width statement for the header line -/
-def C19_header_width_full : Prop :=
-  ∀ (env : Env) (widths : WMap) (t : Table) (w2 : WMap) (parts : Parts),
-    t.columns.Nodup → tableParts env widths t = .ok (w2, parts) → parts.header.length ≤ env.maxWidth
+/-- the name of the column at position `pre.length` starts at offset `widthSum w pre` of the header,
+the offset of that column's cells in every row (`C19_offsets`) -/
+theorem C19_header_offsets (w : WMap) (pre : List String) (c : String) (post : List String) (hs : List Str)
+    (h : headerCells w (pre ++ c :: post) = .ok hs) :
+    ∃ (before cell after : Str) (n : Nat), concat hs = before ++ cell ++ after ∧
+      before.length = widthSum w pre ∧ w.get c = some n ∧ fmtEllipsis c.toList n = .ok cell := by
+  obtain ⟨hsPre, rest, rfl, hpre, hrest⟩ := AllPairs.split _ _ _ (headerCells_spec w _ hs h)
+  cases hrest with
+  | @cons _ cell _ hsPost hc hpost =>
+    obtain ⟨n, hn, hf⟩ := hc
+    exact ⟨concat hsPre, cell, concat hsPost, n, by simp [concat_append, concat],
+      header_length w pre hsPre hpre, hn, hf⟩
 
-def headerLen : Outcome (WMap × Parts) → Option Nat
-  | .ok (_, p) => some p.header.length
+/-- **C19_header_width.**  The header line never has more characters than the terminal is wide. -/
+theorem C19_header_width (env : Env) (widths : WMap) (t : Table) (w2 : WMap) (parts : Parts)
+    (hnd : t.columns.Nodup) (h : tableParts env widths t = .ok (w2, parts)) :
+    parts.header.length ≤ env.maxWidth := by
+  obtain ⟨_, hfits, hs, hh, hhead, _, _⟩ := tableParts_inv env widths t w2 parts h
+  have h0 := header_length w2 t.columns hs (headerCells_spec w2 t.columns hs hh)
+  have h1 := trimEnd_length_le (concat hs)
+  have h3 := widthSum_le_total w2 t.columns hnd
+  have h4 : w2.total ≤ env.maxWidth := by simpa [fits] using hfits
+  rw [hhead]
+  omega
+
+def headerText : Outcome (WMap × Parts) → Option String
+  | .ok (_, p) => some (String.ofList p.header)
   | _ => none
 
 def sepLen : Outcome (WMap × Parts) → Option Nat
@@ -479,143 +482,40 @@ def tableLongName : Table :=
   { columns := ["a_rather_long_column_name", "_count"],
     rows := [[("_count", .int 1), ("a_rather_long_column_name", .str "x")]] }
 
-/-- header cells are padded, never cut: a 25-character name on a 12-column terminal -/
-theorem C19_header_width_counterexample : ¬ C19_header_width_full := by
-  intro h
-  have hev : headerLen (tableParts envNarrow12 [] tableLongName) = some 31 := by decide
-  cases hp : tableParts envNarrow12 [] tableLongName with
-  | ok r =>
-    obtain ⟨w2, parts⟩ := r
-    have := h envNarrow12 [] tableLongName w2 parts (by decide) hp
-    rw [hp] at hev
-    simp only [headerLen, Option.some.injEq] at hev
-    rw [hev] at this
-    revert this
-    decide
-  | err k => rw [hp] at hev; simp [headerLen] at hev
-  | panic p => rw [hp] at hev; simp [headerLen] at hev
-  | unmodelled u => rw [hp] at hev; simp [headerLen] at hev
+/-- the former counterexample (a 25-character name on a 12-column terminal printed a 31-character
+header): the name is now cut to its 6-cell column -/
+example : headerText (tableParts envNarrow12 [] tableLongName) = some "a_ra… _count" := by decide
 
-/-- **C19_header_width_partial**: the header line fits when every column name fits its column
-(always the case when the natural widths fit: a column is at least as wide as its name) -/
-theorem C19_header_width_partial (env : Env) (widths : WMap) (t : Table) (w2 : WMap) (parts : Parts)
-    (hnd : t.columns.Nodup) (h : tableParts env widths t = .ok (w2, parts))
-    (hfit : ∀ c ∈ t.columns, ∀ n, w2.get c = some n → c.toList.length ≤ n) :
-    parts.header.length ≤ env.maxWidth := by
-  obtain ⟨_, hfits, hs, hh, hhead, _, _⟩ := tableParts_inv env widths t w2 parts h
-  have h0 := header_length_fits w2 t.columns hs (headerCells_spec w2 t.columns hs hh) hfit
-  have h1 := trim_length_le (concat hs)
-  have h3 := widthSum_le_total w2 t.columns hnd
-  have h4 : w2.total ≤ env.maxWidth := by simpa [fits] using hfits
-  rw [hhead]
-  omega
-
-/-- non-vacuity: the unit test's table at width 100 -/
-example : headerLen (tableParts { cfg := { minBuf := 2, maxBuf := 4 }, term := some (100, 10) } []
-    { columns := ["kc1", "count"], rows := [[("count", .int 100), ("kc1", .str "k1")]] }) = some 12 := by
-  decide
-
-/-- the separator has `header.len()` dashes: BYTES of the padded header -/
+/-- **C19_separator.**  The separator consists of dashes, exactly as many as the table is wide
+(the sum of the column widths). -/
 theorem C19_separator (env : Env) (widths : WMap) (t : Table) (w2 : WMap) (parts : Parts)
     (h : tableParts env widths t = .ok (w2, parts)) :
-    (∀ c ∈ parts.sep, c = '-') ∧
-    ∃ hs, headerCells w2 t.columns = .ok hs ∧ parts.sep.length = byteLen (concat hs) := by
+    (∀ c ∈ parts.sep, c = '-') ∧ parts.sep.length = widthSum w2 t.columns := by
   obtain ⟨_, _, hs, hh, _, hsep, _⟩ := tableParts_inv env widths t w2 parts h
-  refine ⟨?_, hs, hh, by simp [hsep]⟩
-  intro c hc
-  rw [hsep] at hc
-  exact (List.mem_replicate.mp hc).2
+  refine ⟨?_, ?_⟩
+  · intro c hc
+    rw [hsep] at hc
+    exact (List.mem_replicate.mp hc).2
+  · rw [hsep, List.length_replicate]
+    exact header_length w2 t.columns hs (headerCells_spec w2 t.columns hs hh)
 
-def C19_separator_width_full : Prop :=
-  ∀ (env : Env) (widths : WMap) (t : Table) (w2 : WMap) (parts : Parts),
-    t.columns.Nodup → tableParts env widths t = .ok (w2, parts) →
-    (∀ c ∈ t.columns, ∀ n, w2.get c = some n → c.toList.length ≤ n) →
-    parts.sep.length ≤ env.maxWidth
+/-- **C19_separator_width.**  The separator never has more characters than the terminal is wide. -/
+theorem C19_separator_width (env : Env) (widths : WMap) (t : Table) (w2 : WMap) (parts : Parts)
+    (hnd : t.columns.Nodup) (h : tableParts env widths t = .ok (w2, parts)) :
+    parts.sep.length ≤ env.maxWidth := by
+  obtain ⟨_, hfits, _, _, _, _, _⟩ := tableParts_inv env widths t w2 parts h
+  have h0 := (C19_separator env widths t w2 parts h).2
+  have h3 := widthSum_le_total w2 t.columns hnd
+  have h4 : w2.total ≤ env.maxWidth := by simpa [fits] using hfits
+  omega
 
 def envNarrow24 : Env := { cfg := { minBuf := 4, maxBuf := 8 }, term := some (24, 10) }
 def tableMultiByte : Table :=
   { columns := ["größe", "_count"],
     rows := [[("_count", .int 1), ("größe", .str "abcdefghijklmnopqrstuvwxyz")]] }
 
-/-- multi-byte column names: more dashes than the terminal has columns, although every name fits -/
-theorem C19_separator_width_counterexample : ¬ C19_separator_width_full := by
-  intro h
-  have hev : sepLen (tableParts envNarrow24 [] tableMultiByte) = some 26 := by decide
-  cases hp : tableParts envNarrow24 [] tableMultiByte with
-  | ok r =>
-    obtain ⟨w2, parts⟩ := r
-    have hw : w2 = [("größe", 12), ("_count", 12)] := by
-      have : (match tableParts envNarrow24 [] tableMultiByte with
-        | .ok (w, _) => decide (w = [("größe", 12), ("_count", 12)]) | _ => false) = true := by decide
-      rw [hp] at this
-      simpa using this
-    have := h envNarrow24 [] tableMultiByte w2 parts (by decide) hp (by
-      subst hw
-      intro c hc n hn
-      simp [tableMultiByte] at hc
-      rcases hc with rfl | rfl
-      · have : WMap.get "größe" [("größe", 12), ("_count", 12)] = some 12 := by decide
-        rw [this] at hn; cases hn; decide
-      · have : WMap.get "_count" [("größe", 12), ("_count", 12)] = some 12 := by decide
-        rw [this] at hn; cases hn; decide)
-    rw [hp] at hev
-    simp only [sepLen, Option.some.injEq] at hev
-    rw [hev] at this
-    revert this
-    decide
-  | err k => rw [hp] at hev; simp [sepLen] at hev
-  | panic p => rw [hp] at hev; simp [sepLen] at hev
-  | unmodelled u => rw [hp] at hev; simp [sepLen] at hev
-
-theorem byteLen_ge_length : ∀ s : Str, s.length ≤ byteLen s := by
-  intro s
-  induction s with
-  | nil => simp [byteLen]
-  | cons c cs ih =>
-    have : 1 ≤ c.utf8Size := Char.utf8Size_pos c
-    simp only [byteLen, List.length_cons]
-    omega
-
-theorem byteLen_ascii : ∀ s : Str, (∀ c ∈ s, c.utf8Size = 1) → byteLen s = s.length := by
-  intro s
-  induction s with
-  | nil => intro _; rfl
-  | cons c cs ih =>
-    intro h
-    simp only [byteLen, List.length_cons, h c (by simp), ih (fun d hd => h d (by simp [hd]))]
-    omega
-
-theorem header_ascii (w : WMap) : ∀ (cols : List String) (hs : List Str),
-    AllPairs (fun c h => ∃ n, w.get c = some n ∧ h = padTo n c.toList) cols hs →
-    (∀ c ∈ cols, ∀ x ∈ c.toList, x.utf8Size = 1) → ∀ x ∈ concat hs, x.utf8Size = 1 := by
-  intro cols hs h
-  induction h with
-  | nil => intro _ x hx; simp [concat] at hx
-  | @cons c cell cs rest hc _ ih =>
-    obtain ⟨n, _, rfl⟩ := hc
-    intro hascii x hx
-    simp only [concat, List.mem_append, padTo, List.mem_replicate] at hx
-    rcases hx with (hx | hx) | hx
-    · exact hascii c (by simp) x hx
-    · rw [hx.2]; decide
-    · exact ih (fun d hd => hascii d (by simp [hd])) x hx
-
-/-- **C19_separator_width_partial**: with single-byte (ASCII) column names that fit their columns the
-separator is exactly as long as the table is wide -/
-theorem C19_separator_width_partial (env : Env) (widths : WMap) (t : Table) (w2 : WMap) (parts : Parts)
-    (hnd : t.columns.Nodup) (h : tableParts env widths t = .ok (w2, parts))
-    (hfit : ∀ c ∈ t.columns, ∀ n, w2.get c = some n → c.toList.length ≤ n)
-    (hascii : ∀ c ∈ t.columns, ∀ x ∈ c.toList, x.utf8Size = 1) :
-    parts.sep.length = widthSum w2 t.columns ∧ parts.sep.length ≤ env.maxWidth := by
-  obtain ⟨_, hfits, hs, hh, _, hsep, _⟩ := tableParts_inv env widths t w2 parts h
-  have hspec := headerCells_spec w2 t.columns hs hh
-  have h0 := header_length_fits w2 t.columns hs hspec hfit
-  have hb : byteLen (concat hs) = (concat hs).length :=
-    byteLen_ascii _ (header_ascii w2 t.columns hs hspec hascii)
-  have h3 := widthSum_le_total w2 t.columns hnd
-  have h4 : w2.total ≤ env.maxWidth := by simpa [fits] using hfits
-  rw [hsep, List.length_replicate, hb, h0]
-  exact ⟨rfl, by omega⟩
+/-- the former counterexample (multi-byte names: 26 dashes on a 24-column terminal) -/
+example : sepLen (tableParts envNarrow24 [] tableMultiByte) = some 24 := by decide
 
 /-! ### clipping to the terminal height -/
 
@@ -783,9 +683,8 @@ theorem C19_lines (env : Env) (st : St) (t : Table) (w2 : WMap) (parts : Parts)
 
 /-! ### no panic -/
 
-def AllGe2 (w : WMap) (cols : List String) : Prop := ∀ c ∈ cols, ∃ n, w.get c = some n ∧ 2 ≤ n
-
-def ValuesGe2 (w : WMap) : Prop := ∀ c n, w.get c = some n → 2 ≤ n
+/-- every listed column has a width -/
+def AllHave (w : WMap) (cols : List String) : Prop := ∀ c ∈ cols, (w.get c).isSome
 
 theorem get_put_self (k : String) (v : Nat) : ∀ m : WMap, (WMap.put k v m).get k = some v := by
   intro m
@@ -865,29 +764,10 @@ theorem computeWidths_keys (cfg : Cfg) (w : WMap) : ∀ row : Fields,
   | nil => rfl
   | cons kv rest ih => obtain ⟨k, v⟩ := kv; simp [computeWidths, Fields.keys] at ih ⊢; exact ih
 
-theorem newWidth_ge2 (cfg : Cfg) (hb : BufOK cfg) (w : WMap) (k : String) (v : Value) :
-    2 ≤ newWidth cfg w k v := by
-  obtain ⟨h1, h2⟩ := hb
-  simp only [newWidth]
-  split <;> omega
-
-theorem computeWidths_ge2 (cfg : Cfg) (hb : BufOK cfg) (w : WMap) : ∀ (row : Fields) (c : String) (n : Nat),
-    (c, n) ∈ computeWidths cfg w row → 2 ≤ n := by
-  intro row
-  induction row with
-  | nil => intro c n h; simp [computeWidths] at h
-  | cons kv rest ih =>
-    intro c n h
-    obtain ⟨k, v⟩ := kv
-    simp only [computeWidths, List.mem_cons, Prod.mk.injEq] at h
-    rcases h with ⟨_, rfl⟩ | h
-    · exact newWidth_ge2 cfg hb w k v
-    · exact ih c n h
-
-/-- after the rows have been absorbed every column that occurs in a row is at least 2 wide -/
-theorem absorb_ge2 (cfg : Cfg) (hb : BufOK cfg) (c : String) : ∀ (rows : List Fields) (w : WMap),
-    ((∃ row ∈ rows, c ∈ Fields.keys row) ∨ ∃ n, w.get c = some n ∧ 2 ≤ n) →
-    ∃ n, (absorbRows cfg w rows).get c = some n ∧ 2 ≤ n := by
+/-- after the rows have been absorbed every column that occurs in a row has a width -/
+theorem absorb_has (cfg : Cfg) (c : String) : ∀ (rows : List Fields) (w : WMap),
+    ((∃ row ∈ rows, c ∈ Fields.keys row) ∨ (w.get c).isSome) →
+    ((absorbRows cfg w rows).get c).isSome := by
   intro rows
   induction rows with
   | nil =>
@@ -902,47 +782,34 @@ theorem absorb_ge2 (cfg : Cfg) (hb : BufOK cfg) (c : String) : ∀ (rows : List 
     obtain ⟨g1, g2⟩ := get_extend (computeWidths cfg w row) w c
     rw [computeWidths_keys] at g1 g2
     by_cases hin : c ∈ Fields.keys row
-    · obtain ⟨n, hn, hg⟩ := g1 hin
-      exact Or.inr ⟨n, hg, computeWidths_ge2 cfg hb w row c n hn⟩
-    · rcases h with ⟨r, hr, hc⟩ | ⟨n, hn, h2⟩
+    · obtain ⟨n, _, hg⟩ := g1 hin
+      exact Or.inr (by simp [hg])
+    · rcases h with ⟨r, hr, hc⟩ | h
       · simp only [List.mem_cons] at hr
         rcases hr with rfl | hr
         · exact absurd hc hin
         · exact Or.inl ⟨r, hr, hc⟩
-      · exact Or.inr ⟨n, by rw [g2 hin]; exact hn, h2⟩
+      · exact Or.inr (by rw [g2 hin]; exact h)
 
-theorem share_arith (rem d : Nat) (hd : 1 ≤ d) (h : 2 * d ≤ rem) :
-    2 ≤ rem / d ∧ rem / d ≤ rem ∧ 2 * (d - 1) ≤ rem - rem / d := by
-  have hq : 2 ≤ rem / d := (Nat.le_div_iff_mul_le (by omega)).mpr h
-  refine ⟨hq, Nat.div_le_self rem d, ?_⟩
-  obtain ⟨d', rfl⟩ : ∃ d', d = d' + 1 := ⟨d - 1, by omega⟩
-  have h1 : rem / (d' + 1) * (d' + 1) ≤ rem := Nat.div_mul_le_self rem (d' + 1)
-  have h2 : rem / (d' + 1) * (d' + 1) = rem / (d' + 1) * d' + rem / (d' + 1) := Nat.mul_succ _ _
-  have h3 : 2 * d' ≤ rem / (d' + 1) * d' := Nat.mul_le_mul_right d' hq
-  generalize rem / (d' + 1) * d' = z at *
-  generalize rem / (d' + 1) = q at *
-  simp only [Nat.add_sub_cancel]
-  omega
-
-/-- the allocation loop of `resize_widths_to_fit` succeeds and keeps every column at least 2 wide
-as long as two cells per remaining map entry are left -/
+/-- the allocation loop of `resize_widths_to_fit` never underflows: a column's share is at most what
+remains, and there are at least as many map entries as columns still to come -/
 theorem resizeGo_ok (len : Nat) (cw : WMap) : ∀ (cols : List String) (i rem : Nat) (acc : WMap),
-    AllGe2 cw cols → i + cols.length ≤ len → 2 * (len - i) ≤ rem → ValuesGe2 acc →
-    ∃ w2, resizeGo len cw cols i rem acc = .ok w2 ∧ ValuesGe2 w2 ∧
+    AllHave cw cols → i + cols.length ≤ len →
+    ∃ w2, resizeGo len cw cols i rem acc = .ok w2 ∧
       (∀ c, (c ∈ cols ∨ (acc.get c).isSome) → (w2.get c).isSome) ∧ w2.total ≤ acc.total + rem := by
   intro cols
   induction cols with
   | nil =>
-    intro i rem acc _ _ _ hacc
-    refine ⟨acc, rfl, hacc, ?_, by omega⟩
+    intro i rem acc _ _
+    refine ⟨acc, rfl, ?_, by omega⟩
     intro c hc
     simpa using hc
   | cons col rest ih =>
-    intro i rem acc hall hlen hrem hacc
-    obtain ⟨width, hget, hw2⟩ := hall col (by simp)
+    intro i rem acc hall hlen
+    obtain ⟨width, hget⟩ := Option.isSome_iff_exists.mp (hall col (by simp))
     simp only [List.length_cons] at hlen
     have hd : 1 ≤ len - i := by omega
-    obtain ⟨hs2, hsle, hsrem⟩ := share_arith rem (len - i) hd hrem
+    have hsle : rem / (len - i) ≤ rem := Nat.div_le_self rem (len - i)
     have hshare : share rem (len - i) = rem / (len - i) := by
       simp [share]; omega
     have hnlt : ¬ len < i := by omega
@@ -950,14 +817,9 @@ theorem resizeGo_ok (len : Nat) (cw : WMap) : ∀ (cols : List String) (i rem : 
     by_cases hlt : width < rem / (len - i)
     · have h1 : ¬ rem < width := by omega
       simp only [hlt, ↓reduceIte, h1]
-      obtain ⟨w2, hr, hv, hk, ht⟩ := ih (i + 1) (rem - width) (acc.put col width)
-        (fun c hc => hall c (by simp [hc])) (by omega) (by omega)
-        (by
-          intro c n hn
-          by_cases hc : c = col
-          · subst hc; rw [get_put_self] at hn; cases hn; exact hw2
-          · rw [get_put_ne col c width hc] at hn; exact hacc c n hn)
-      refine ⟨w2, hr, hv, ?_, ?_⟩
+      obtain ⟨w2, hr, hk, ht⟩ := ih (i + 1) (rem - width) (acc.put col width)
+        (fun c hc => hall c (by simp [hc])) (by omega)
+      refine ⟨w2, hr, ?_, ?_⟩
       · intro c hc
         apply hk
         by_cases hcc : c = col
@@ -972,14 +834,9 @@ theorem resizeGo_ok (len : Nat) (cw : WMap) : ∀ (cols : List String) (i rem : 
         omega
     · have h1 : ¬ rem < rem / (len - i) := by omega
       simp only [hlt, ↓reduceIte, h1]
-      obtain ⟨w2, hr, hv, hk, ht⟩ := ih (i + 1) (rem - rem / (len - i)) (acc.put col (rem / (len - i)))
-        (fun c hc => hall c (by simp [hc])) (by omega) (by omega)
-        (by
-          intro c n hn
-          by_cases hc : c = col
-          · subst hc; rw [get_put_self] at hn; cases hn; exact hs2
-          · rw [get_put_ne col c _ hc] at hn; exact hacc c n hn)
-      refine ⟨w2, hr, hv, ?_, ?_⟩
+      obtain ⟨w2, hr, hk, ht⟩ := ih (i + 1) (rem - rem / (len - i)) (acc.put col (rem / (len - i)))
+        (fun c hc => hall c (by simp [hc])) (by omega)
+      refine ⟨w2, hr, ?_, ?_⟩
       · intro c hc
         apply hk
         by_cases hcc : c = col
@@ -993,7 +850,7 @@ theorem resizeGo_ok (len : Nat) (cw : WMap) : ∀ (cols : List String) (i rem : 
       · have := total_put_le col (rem / (len - i)) acc
         omega
 
-theorem headerCells_ok (w : WMap) : ∀ cols : List String, (∀ c ∈ cols, (w.get c).isSome) →
+theorem headerCells_ok (w : WMap) : ∀ cols : List String, AllHave w cols →
     ∃ hs, headerCells w cols = .ok hs := by
   intro cols
   induction cols with
@@ -1001,22 +858,23 @@ theorem headerCells_ok (w : WMap) : ∀ cols : List String, (∀ c ∈ cols, (w.
   | cons c cs ih =>
     intro h
     obtain ⟨n, hn⟩ := Option.isSome_iff_exists.mp (h c (by simp))
+    obtain ⟨cell, hcell⟩ := fmtEllipsis_ok c.toList n
     obtain ⟨hs, hhs⟩ := ih (fun d hd => h d (by simp [hd]))
-    exact ⟨padTo n c.toList :: hs, by simp [headerCells, hn, hhs]⟩
+    exact ⟨cell :: hs, by simp [headerCells, hn, hcell, hhs]⟩
 
-theorem rowCells_ok (w : WMap) (row : Fields) : ∀ cols : List String, AllGe2 w cols →
+theorem rowCells_ok (w : WMap) (row : Fields) : ∀ cols : List String, AllHave w cols →
     ∃ cells, rowCells w row cols = .ok cells := by
   intro cols
   induction cols with
   | nil => intro _; exact ⟨[], rfl⟩
   | cons c cs ih =>
     intro h
-    obtain ⟨n, hn, h2⟩ := h c (by simp)
-    obtain ⟨cell, hcell⟩ := fmtEllipsis_ok (cellText ((Fields.get c row).getD .none)) n h2
+    obtain ⟨n, hn⟩ := Option.isSome_iff_exists.mp (h c (by simp))
+    obtain ⟨cell, hcell⟩ := fmtEllipsis_ok (cellText ((Fields.get c row).getD .none)) n
     obtain ⟨cells, hcells⟩ := ih (fun d hd => h d (by simp [hd]))
     exact ⟨cell :: cells, by simp [rowCells, hn, hcell, hcells]⟩
 
-theorem bodyLines_ok (w : WMap) (cols : List String) (h : AllGe2 w cols) : ∀ rows : List Fields,
+theorem bodyLines_ok (w : WMap) (cols : List String) (h : AllHave w cols) : ∀ rows : List Fields,
     ∃ body, bodyLines w cols rows = .ok body := by
   intro rows
   induction rows with
@@ -1024,7 +882,7 @@ theorem bodyLines_ok (w : WMap) (cols : List String) (h : AllGe2 w cols) : ∀ r
   | cons r rs ih =>
     obtain ⟨cells, hc⟩ := rowCells_ok w r cols h
     obtain ⟨body, hb⟩ := ih
-    exact ⟨Text.trim (concat cells) :: body, by simp [bodyLines, rowLine, hc, hb]⟩
+    exact ⟨Text.trimEnd (concat cells) :: body, by simp [bodyLines, rowLine, hc, hb]⟩
 
 theorem clip_ok (env : Env) (hh : HeightOK env) (s : Str) : ∃ out, clip env s = .ok out := by
   cases hterm : env.term with
@@ -1038,175 +896,64 @@ theorem clip_ok (env : Env) (hh : HeightOK env) (s : Str) : ∃ out, clip env s 
     · exact ⟨_, rfl⟩
     · exact ⟨_, rfl⟩
 
-/-- **C19_no_panic.**  `format_aggregate` does not panic — whatever widths earlier frames left in
-the printer — provided the buffers are the production ones (`BufOK`), the terminal has a height,
-column names are distinct and occur in the rows, and EITHER the natural widths fit the terminal OR
-the terminal has at least two cells per remembered column. -/
+/-- **C19_no_panic.**  `format_aggregate` does not panic: for every table with distinct column
+names that occur in its rows, every terminal size with a height (any width, even narrower than
+the number of columns), the no-terminal case, every buffer configuration, and whatever widths
+earlier frames left in the printer. -/
 theorem C19_no_panic (env : Env) (st : St) (t : Table)
-    (hbuf : BufOK env.cfg) (hh : HeightOK env) (hnd : t.columns.Nodup) (hcov : Covered t)
-    (hw : fits env (absorbRows env.cfg st.widths t.rows) = true ∨
-          2 * (absorbRows env.cfg st.widths t.rows).length ≤ env.maxWidth) :
+    (hh : HeightOK env) (hnd : t.columns.Nodup) (hcov : Covered t) :
     ∃ out st', formatAggregate env st t = .ok (out, st') := by
   by_cases hrows : t.rows = []
   · exact ⟨_, _, C19_empty env st t hrows⟩
   have hne : t.rows.isEmpty = false := by cases hr : t.rows <;> simp_all
-  -- every column is at least 2 wide after the rows have been absorbed
-  have hall1 : AllGe2 (absorbRows env.cfg st.widths t.rows) t.columns := by
+  have hall1 : AllHave (absorbRows env.cfg st.widths t.rows) t.columns := by
     intro c hc
-    exact absorb_ge2 env.cfg hbuf c t.rows st.widths (Or.inl (hcov c hc))
-  -- resize succeeds, keeps that, and fits
+    exact absorb_has env.cfg c t.rows st.widths (Or.inl (hcov c hc))
   have hres : ∃ w2, resize env (absorbRows env.cfg st.widths t.rows) t.columns = .ok w2 ∧
-      AllGe2 w2 t.columns ∧ fits env w2 = true := by
+      AllHave w2 t.columns ∧ fits env w2 = true := by
     by_cases hf : fits env (absorbRows env.cfg st.widths t.rows) = true
     · exact ⟨_, by simp [resize, hf], hall1, hf⟩
-    · have hw' := hw.resolve_left hf
-      have hsub : t.columns ⊆ (absorbRows env.cfg st.widths t.rows).map Prod.fst := by
+    · have hsub : t.columns ⊆ (absorbRows env.cfg st.widths t.rows).map Prod.fst := by
         intro c hc
-        obtain ⟨n, hn, _⟩ := hall1 c hc
+        obtain ⟨n, hn⟩ := Option.isSome_iff_exists.mp (hall1 c hc)
         exact get_some_mem _ c n hn
       have hlen := hnd.length_le_of_subset hsub
       simp only [List.length_map] at hlen
-      obtain ⟨w2, hr, hv, hk, ht⟩ := resizeGo_ok (absorbRows env.cfg st.widths t.rows).length
-        (absorbRows env.cfg st.widths t.rows) t.columns 0 env.maxWidth [] hall1 (by omega) (by omega)
-        (by intro c n h; simp [WMap.get] at h)
-      refine ⟨w2, by simp [resize, hf, hr], ?_, ?_⟩
-      · intro c hc
-        obtain ⟨n, hn⟩ := Option.isSome_iff_exists.mp (hk c (Or.inl hc))
-        exact ⟨n, hn, hv c n hn⟩
-      · simp only [WMap.total] at ht
-        simp [fits]; omega
+      obtain ⟨w2, hr, hk, ht⟩ := resizeGo_ok (absorbRows env.cfg st.widths t.rows).length
+        (absorbRows env.cfg st.widths t.rows) t.columns 0 env.maxWidth [] hall1 (by omega)
+      refine ⟨w2, by simp [resize, hf, hr], fun c hc => hk c (Or.inl hc), ?_⟩
+      simp only [WMap.total] at ht
+      simp [fits]; omega
   obtain ⟨w2, hr, hall2, hfits⟩ := hres
-  obtain ⟨hs, hhs⟩ := headerCells_ok w2 t.columns (fun c hc => by
-    obtain ⟨n, hn, _⟩ := hall2 c hc; simp [hn])
+  obtain ⟨hs, hhs⟩ := headerCells_ok w2 t.columns hall2
   obtain ⟨body, hb⟩ := bodyLines_ok w2 t.columns hall2 t.rows
   obtain ⟨out, hout⟩ := clip_ok env hh
-    (Parts.text { header := Text.trim (concat hs), sep := List.replicate (byteLen (concat hs)) '-', body := body })
+    (Parts.text { header := Text.trimEnd (concat hs), sep := List.replicate (concat hs).length '-', body := body })
   exact ⟨out, { st with widths := w2 }, by simp [formatAggregate, hne, tableParts, hr, hfits, hhs, hb, hout]⟩
 
-/-! #### a fresh printer: `2 · #columns ≤ width` -/
-
-theorem keys_put (k : String) (v : Nat) : ∀ m : WMap,
-    (WMap.put k v m).map Prod.fst = if k ∈ m.map Prod.fst then m.map Prod.fst else m.map Prod.fst ++ [k] := by
-  intro m
-  induction m with
-  | nil => simp [WMap.put]
-  | cons kv t ih =>
-    obtain ⟨k', v'⟩ := kv
-    by_cases hk : k = k'
-    · simp [WMap.put, hk]
-    · simp only [WMap.put, hk, ↓reduceIte, List.map_cons, ih, List.mem_cons, false_or]
-      split <;> simp
-
-def KeysIn (S : List String) (w : WMap) : Prop := (w.map Prod.fst).Nodup ∧ ∀ k ∈ w.map Prod.fst, k ∈ S
-
-theorem keysIn_put (S : List String) (k : String) (v : Nat) (m : WMap) (hk : k ∈ S) (h : KeysIn S m) :
-    KeysIn S (WMap.put k v m) := by
-  unfold KeysIn
-  rw [keys_put]
-  split
-  · exact h
-  · rename_i hn
-    refine ⟨?_, ?_⟩
-    · rw [List.nodup_append]
-      refine ⟨h.1, by simp, ?_⟩
-      intro a ha b hb
-      simp only [List.mem_singleton] at hb
-      subst hb
-      exact fun e => hn (e ▸ ha)
-    · intro x hx
-      simp only [List.mem_append, List.mem_singleton] at hx
-      rcases hx with hx | rfl
-      · exact h.2 x hx
-      · exact hk
-
-theorem keysIn_extend (S : List String) : ∀ (new m : WMap), (∀ k ∈ new.map Prod.fst, k ∈ S) → KeysIn S m →
-    KeysIn S (WMap.extend m new) := by
-  intro new
-  induction new with
-  | nil => intro m _ h; exact h
-  | cons kv rest ih =>
-    intro m hn h
-    obtain ⟨k, v⟩ := kv
-    simp only [WMap.extend]
-    exact ih _ (fun x hx => hn x (by simp [hx])) (keysIn_put S k v m (hn k (by simp)) h)
-
-theorem keysIn_absorb (cfg : Cfg) (S : List String) : ∀ (rows : List Fields) (w : WMap),
-    (∀ row ∈ rows, ∀ k ∈ Fields.keys row, k ∈ S) → KeysIn S w → KeysIn S (absorbRows cfg w rows) := by
-  intro rows
-  induction rows with
-  | nil => intro w _ h; exact h
-  | cons row rows ih =>
-    intro w hr h
-    simp only [absorbRows]
-    apply ih _ (fun r hr' => hr r (by simp [hr']))
-    apply keysIn_extend S _ w _ h
-    rw [computeWidths_keys]
-    exact hr row (by simp)
-
-/-- **C19_no_panic_fresh.**  First frame of a query (no remembered widths), every row key a column:
-no panic on any terminal with at least two cells per column. -/
-theorem C19_no_panic_fresh (env : Env) (t : Table)
-    (hbuf : BufOK env.cfg) (hh : HeightOK env) (hnd : t.columns.Nodup) (hcov : Covered t)
-    (hkeys : ∀ row ∈ t.rows, ∀ k ∈ Fields.keys row, k ∈ t.columns)
-    (hw : 2 * t.columns.length ≤ env.maxWidth) :
-    ∃ out st', formatAggregate env {} t = .ok (out, st') := by
-  apply C19_no_panic env {} t hbuf hh hnd hcov
-  right
-  have hk := keysIn_absorb env.cfg t.columns t.rows [] hkeys ⟨by simp, by simp⟩
-  have := hk.1.length_le_of_subset hk.2
-  simp only [List.length_map] at this
-  show 2 * (absorbRows env.cfg [] t.rows).length ≤ env.maxWidth
-  omega
-
-/-- the statement without the width bound -/
-def C19_no_panic_full : Prop :=
-  ∀ (env : Env) (st : St) (t : Table), BufOK env.cfg → HeightOK env → t.columns.Nodup → Covered t →
-    ∃ out st', formatAggregate env st t = .ok (out, st')
-
-def isPanic {α : Type} : Outcome α → Bool
-  | .panic _ => true
-  | _ => false
+def outText : Outcome (Str × St) → Option String
+  | .ok (s, _) => some (String.ofList s)
+  | _ => none
 
 def envNarrow2 : Env := { cfg := { minBuf := 4, maxBuf := 8 }, term := some (2, 10) }
 def table3 : Table :=
   { columns := ["a", "b", "c"], rows := [[("a", .int 1), ("b", .int 2), ("c", .int 3)]] }
 
-/-- three columns on a two-cell terminal: a share of 0 cells, and `limit - 2` underflows -/
-theorem C19_no_panic_counterexample : ¬ C19_no_panic_full := by
-  intro h
-  have hp : isPanic (formatAggregate envNarrow2 {} table3) = true := by decide
-  obtain ⟨out, st', hok⟩ := h envNarrow2 {} table3 (by decide)
-    (by intro w h hterm; simp [envNarrow2] at hterm; omega) (by decide)
-    (by
-      intro c hc
-      refine ⟨[("a", .int 1), ("b", .int 2), ("c", .int 3)], by simp [table3], ?_⟩
-      simpa [table3, Fields.keys] using hc)
-  rw [hok] at hp
-  simp [isPanic] at hp
+/-- the former panic witness (three columns on a two-cell terminal: shares 0, 1, 1) prints -/
+example : outText (formatAggregate envNarrow2 {} table3) = some "bc\n--\n23\n" := by decide
 
-/-- non-vacuity of `C19_no_panic` in the resize branch: the unit test's long table at width 60 -/
-example : BufOK { minBuf := 4, maxBuf := 8 } ∧
-    fits { cfg := { minBuf := 4, maxBuf := 8 }, term := some (20, 10) }
-      (absorbRows { minBuf := 4, maxBuf := 8 } [] [[("k", .str "abcdefghijklmnopqrstuvwxyz"), ("n", .int 5)]]) = false ∧
-    2 * (absorbRows { minBuf := 4, maxBuf := 8 } [] [[("k", .str "abcdefghijklmnopqrstuvwxyz"), ("n", .int 5)]]).length ≤ 20 := by
-  decide
+/-! ### every line fits -/
 
-/-! ### every line fits (summary of the partial width results) -/
-
-/-- **C19_width_partial.**  All lines of the table — header, separator, body — have at most `width`
-characters when column names are distinct, single-byte, and fit their columns.  (The body alone
-needs only distinct names: `C19_body_width`.  Without the two name hypotheses the statement is
-false: `C19_header_width_counterexample`, `C19_separator_width_counterexample`.) -/
-theorem C19_width_partial (env : Env) (widths : WMap) (t : Table) (w2 : WMap) (parts : Parts)
-    (hnd : t.columns.Nodup) (h : tableParts env widths t = .ok (w2, parts))
-    (hfit : ∀ c ∈ t.columns, ∀ n, w2.get c = some n → c.toList.length ≤ n)
-    (hascii : ∀ c ∈ t.columns, ∀ x ∈ c.toList, x.utf8Size = 1) :
+/-- **C19_width.**  No line of the table — header, separator, body — has more characters than the
+terminal is wide (240 without a terminal), for every table with distinct column names. -/
+theorem C19_width (env : Env) (widths : WMap) (t : Table) (w2 : WMap) (parts : Parts)
+    (hnd : t.columns.Nodup) (h : tableParts env widths t = .ok (w2, parts)) :
     ∀ l ∈ parts.header :: parts.sep :: parts.body, l.length ≤ env.maxWidth := by
   intro l hl
   simp only [List.mem_cons] at hl
   rcases hl with rfl | rfl | hl
-  · exact C19_header_width_partial env widths t w2 parts hnd h hfit
-  · exact (C19_separator_width_partial env widths t w2 parts hnd h hfit hascii).2
+  · exact C19_header_width env widths t w2 parts hnd h
+  · exact C19_separator_width env widths t w2 parts hnd h
   · exact C19_body_width env widths t w2 parts hnd h l hl
 
 /-! ### records as columns -/
